@@ -8,15 +8,18 @@
 EXTENDS Integers, Sequences, FiniteSets, TLC, Json
 
 (* ---------------- part 1: outcome table ---------------- *)
-Kinds == {"GET", "POST", "HEAD", "CONNECT", "GETviaProxy", "CONNECTviaProxy", "MITMGET"}
+\* MITMGETviaRej / MITMHEADviaRej: a request inside an intercepted session whose own CONNECT - sent by the proxy's
+\* transport to the upstream proxy - is what gets rejected
+Kinds == {"GET", "POST", "HEAD", "CONNECT", "GETviaProxy", "CONNECTviaProxy", "MITMGET", "MITMGETviaRej", "MITMHEADviaRej"}
 Faults == {"dial_refused", "dial_timeout", "tls_garbage", "tls_untrusted", "tls_expired", "tls_wrongname",
            "proxy_connect_403", "proxy_connect_407", "proxy_connect_502", "proxy_connect_403_body",
            "cut_head", "cut_body_cl", "cut_body_chunked", "rst_head", "rst_body",
            "bad_status_line", "bad_field", "bad_chunk_size", "bad_gzip", "trailing_garbage", "none"}
 \* which faults can occur for which kind of request
 Applies(f, k) ==
-  CASE f \in {"tls_garbage", "tls_untrusted", "tls_expired", "tls_wrongname"} -> k = "MITMGET"
-    [] f \in {"proxy_connect_403", "proxy_connect_407", "proxy_connect_502", "proxy_connect_403_body"} -> k = "CONNECTviaProxy"
+  CASE k \in {"MITMGETviaRej", "MITMHEADviaRej"} -> f \in {"proxy_connect_403", "proxy_connect_407", "proxy_connect_502", "proxy_connect_403_body"}
+    [] f \in {"tls_garbage", "tls_untrusted", "tls_expired", "tls_wrongname"} -> k = "MITMGET"
+    [] f \in {"proxy_connect_403", "proxy_connect_407", "proxy_connect_502", "proxy_connect_403_body"} -> k \in {"CONNECTviaProxy", "MITMGETviaRej", "MITMHEADviaRej"}
     [] f \in {"cut_head", "rst_head", "bad_status_line", "bad_field", "trailing_garbage", "none"} -> k # "CONNECT"
     [] f \in {"cut_body_cl", "cut_body_chunked", "rst_body", "bad_chunk_size", "bad_gzip"} -> k \notin {"CONNECT", "CONNECTviaProxy", "HEAD"}
     [] OTHER -> TRUE
@@ -37,6 +40,9 @@ Outcome(f, k) ==
   \* bad_gzip: the proxy itself solicited gzip (client sent no Accept-Encoding) and the stream it decodes is
   \* damaged in the middle / fails its checksum at the end: a failure after the head, like a cut
   ELSE IF f \in {"cut_body_cl", "cut_body_chunked", "rst_body", "bad_chunk_size", "bad_gzip"} THEN [o |-> "closed_after_head", st |-> {200}]
+  \* inside the session the rejection reaches the client as the answer to its own request: the upstream proxy's status
+  \* or a 5xx of the proxy's own
+  ELSE IF k \in {"MITMGETviaRej", "MITMHEADviaRej"} THEN [o |-> "error_response", st |-> Statuses(f) \cup (500..599)]
   ELSE [o |-> "error_response", st |-> Statuses(f)]
 \* a CONNECT tunnel via the upstream proxy that is cut later is not an HTTP matter
 \* --log-http mode of the proxy: the logging modifier sits between the round trip and the write to the client (in
